@@ -3,8 +3,11 @@ package keeper
 import (
 	"context"
 
+	errorsmod "cosmossdk.io/errors"
+
 	sdkmath "cosmossdk.io/math"
 	sdk "github.com/cosmos/cosmos-sdk/types"
+	sdkerrors "github.com/cosmos/cosmos-sdk/types/errors"
 	"github.com/elys-network/elys/x/amm/types"
 )
 
@@ -32,6 +35,11 @@ func (k Keeper) SwapExactAmountIn(ctx sdk.Context, msg *types.MsgSwapExactAmount
 	recipient, err := sdk.AccAddressFromBech32(msg.Recipient)
 	if err != nil {
 		recipient = sender
+	}
+	// a payout is a raw bank send: to a module account it would bypass the bank's blocked-address rule,
+	// and to a module address that has no account yet it would create a plain account in its place
+	if k.bankKeeper.BlockedAddr(recipient) {
+		return nil, errorsmod.Wrapf(sdkerrors.ErrUnauthorized, "%s is not allowed to receive funds", recipient)
 	}
 	// Try executing the tx on cached context environment, to filter invalid transactions out
 	cacheCtx, _ := ctx.CacheContext()
